@@ -75,8 +75,11 @@ structure E2E where
   pxs : List PX := []
   calls : List CallInfo := []
   settled : Bool := true
-  /-- (probe, group) memberships of the real actors -/
-  joins : List (Nat × String) := []
+  /-- ((scope, group), probe): memberships of the real actors when the nodes connected
+  (what the initial scan of `after_authenticated` sees; the default scope is `""`) -/
+  l0 : Memb := []
+  /-- the local pg changes since then, in order -/
+  evs : List PgEv := []
   /-- the paused clock (ms) -/
   now : Nat := 0
   /-- the relay direction (0: A→B, 1: B→A) that stands still after its sender's authentication
@@ -86,6 +89,17 @@ structure E2E where
 
 /-- node `d` (0 = A, 1 = B) has not received the peer's initial state: it owns no proxies -/
 def E2E.starved (e : E2E) (d : Nat) : Bool := e.held == some (1 - d)
+
+/-- the originals' memberships now -/
+def E2E.localNow (e : E2E) : Memb := e.evs.foldl Memb.apply e.l0
+
+/-- the remote references' memberships on a peer that has processed everything it was sent:
+`Remote.Mirror` run over `Remote.syncStream` (initial scan, then the notifications in order) -/
+def E2E.remoteNow (e : E2E) : Memb := (Mirror.run {} (syncStream e.l0.keys e.l0 e.evs)).members
+
+def scopeOf (s : String) : String := if s == "-" then "" else s
+
+def sortStrs (l : List String) : List String := (l.toArray.qsort (· < ·)).toList
 
 def replyOf (t req : Nat) : Nat := req * 7 + t + 1
 
@@ -321,20 +335,32 @@ def stepE2E (e : E2E) (w : List String) (impl : String) : Option (E2E × StepOut
           | none => []
         (e, { model := model, oracle := wired ++ missing, nontrivial := impl.startsWith "ok:" && expect.isSome,
               key := some s!"result {c.dir} {c.t} {c.hold} {impl}" })
-  | ["join", t, g] =>
+  | "join" :: t :: g :: rest =>
+    if rest.length > 1 then none else
+    let sc := scopeOf (rest.headD "-")
     t.toNat?.map fun t =>
       if e.probes[t]?.isNone then (e, { model := "noprobe" }) else
-      ({ e with joins := if e.joins.contains (t, g) then e.joins else e.joins ++ [(t, g)], settled := false }, { model := "ok" })
-  | ["leave", t, g] =>
+      ({ e with evs := e.evs ++ [.join sc g [t]], settled := false }, { model := "ok" })
+  | "leave" :: t :: g :: rest =>
+    if rest.length > 1 then none else
+    let sc := scopeOf (rest.headD "-")
     t.toNat?.map fun t =>
       if e.probes[t]?.isNone then (e, { model := "noprobe" }) else
-      ({ e with joins := e.joins.filter (· != (t, g)), settled := false }, { model := "ok" })
-  | ["members", g] =>
+      ({ e with evs := e.evs ++ [.leave sc g [t]], settled := false }, { model := "ok" })
+  | "members" :: g :: rest =>
+    if rest.length > 1 then none else
+    let scName := rest.headD "-"
+    let k : GKey := (scopeOf scName, g)
     let calm := e.settled && (e.link == 0 || e.link == 2)
-    let ms := e.joins.filter fun (t, g') => g' == g && e.probes[t]? == some 0
-    let want := ms.flatMap fun (t, _) => [s!"L{t}"] ++
-      (if e.link == 0 && !e.starved 0 then [s!"Ra{t}"] else []) ++ (if e.link == 0 && !e.starved 1 then [s!"Rb{t}"] else [])
-    let want := (want.toArray.qsort (· < ·)).toList
+    let up := fun (t : Nat) => e.probes[t]? == some 0
+    -- the originals, and their image on each node (the model of the receiving session run over
+    -- the model of what the sending session emits)
+    let loc := ((e.localNow.filter (·.1 == k)).map (·.2)).filter up
+    let rem := ((e.remoteNow.filter (·.1 == k)).map (·.2)).filter up
+    let want := loc.map (fun t => s!"L{t}") ++
+      (if e.link == 0 && !e.starved 0 then rem.map (fun t => s!"Ra{t}") else []) ++
+      (if e.link == 0 && !e.starved 1 then rem.map (fun t => s!"Rb{t}") else [])
+    let want := sortStrs want
     let wantS := if want.isEmpty then "-" else ",".intercalate want
     -- safety: no proxy of a stopped probe / over a closed link stays in a group
     let got := if impl == "-" then [] else splitOnChar impl ','
@@ -343,16 +369,26 @@ def stepE2E (e : E2E) (w : List String) (impl : String) : Option (E2E × StepOut
         (match (m.drop 2).toString.toNat? with | some t => e.probes[t]? == some 2 | none => true)))
     -- at rest every advertised live member must be mirrored by the proxies that exist
     let missing := calm && want.any fun m => m.startsWith "R" && !got.contains m
-    some (e, { model := if calm then wantS else impl, oracle := if stale || missing then ["mirror"] else [],
-               nontrivial := got.length > 1, key := some s!"members {impl}" })
-  | ["spawn"] => some ({ e with probes := e.probes ++ [3], joins := e.joins ++ [(e.probes.length, s!"p{e.probes.length}")],
+    -- on the implementation's own observation: at rest, on a node that has received the peer's
+    -- state, the remote references in this scope AND group are those of the originals in it
+    let idx := fun (pre : String) => sortStrs (got.filterMap fun m =>
+      if m.startsWith pre then some (m.drop pre.length).toString else none)
+    let differs := fun (d : Nat) (pre node : String) =>
+      if calm && e.link == 0 && !e.starved d && idx pre != idx "L" then
+        [s!"remote-membership-differs-from-original scope={scName} group={g} node={node} originals={idx "L"} remote={idx pre}"]
+      else []
+    some (e, { model := if calm then wantS else impl,
+               oracle := differs 0 "Ra" "a" ++ differs 1 "Rb" "b" ++ (if stale || missing then ["mirror"] else []),
+               nontrivial := got.length > 1, key := some s!"members {k.1 != ""} {impl}" })
+  | ["spawn"] => some ({ e with probes := e.probes ++ [3], evs := e.evs ++ [.join "" s!"p{e.probes.length}" [e.probes.length]],
                                  settled := false }, { model := "ok" })
   | ["stop", t] =>
     t.toNat?.map fun t =>
       if e.probes[t]?.isNone then (e, { model := "noprobe" }) else
       let e := affect e fun p => p.t == t
       let pxs := e.pxs.map fun (p : PX) => if p.t == t then { p with net := p.net.step .targetExit } else p
-      ({ e with pxs := pxs, probes := e.probes.set t (if e.probes[t]? == some 2 then 2 else 1), settled := false }, { model := "ok" })
+      ({ e with pxs := pxs, probes := e.probes.set t (if e.probes[t]? == some 2 then 2 else 1), evs := e.evs ++ [.exit t],
+                settled := false }, { model := "ok" })
   | ["status", d, t] =>
     match parseDir? d, t.toNat? with
     | some d, some t =>
@@ -467,22 +503,26 @@ def stepPure (st : PSt) (w : List String) (impl : String) : Option (PSt × StepO
 def step (st : St) (op impl : String) : St × StepOut :=
   let w := words op
   match w with
-  | ["e2e", _, n] =>
-    match n.toNat? with
-    | some n =>
-      ({ st with inE2E := true,
-                 e := { probes := List.replicate n 0, joins := (List.range n).map fun t => (t, s!"p{t}") } },
-       { model := "ready a=1 b=0", nontrivial := true })
-    | none => (st, { model := "bad-op" })
-  | ["e2e", _, n, h] =>
-    match n.toNat?, parseDir? h with
-    | some n, some d =>
+  | "e2e" :: _ :: n :: rest =>
+    -- rest: [a|b|-] [<t>:<s>:<g>,…  memberships before the nodes connect]
+    let hold := rest.head?.bind parseDir?
+    let pre : Option Memb := match rest with
+      | [_, p] => (splitOnChar p ',').mapM fun e =>
+          match splitOnChar e ':' with
+          | [t, sc, g] => t.toNat?.map fun t => ((scopeOf sc, g), t)
+          | _ => none
+      | _ => some []
+    match n.toNat?, pre, decide (rest.length ≤ 2) with
+    | some n, some pre, true =>
+      -- every probe sits in its own default-scope group `p<t>`
+      let own : Memb := (List.range n).map fun t => (("", s!"p{t}"), t)
+      let e : E2E := { probes := List.replicate n 0, l0 := own ++ pre.eraseDups, held := hold }
       -- the node that receives the held direction is still syncing, the other one is ready
-      let flags := if d == 0 then "a=ready b=syncing" else "a=syncing b=ready"
-      ({ st with inE2E := true,
-                 e := { probes := List.replicate n 0, joins := (List.range n).map fun t => (t, s!"p{t}"), held := some d } },
-       { model := s!"ready a=1 b=0 held={h} {flags}", nontrivial := true })
-    | _, _ => (st, { model := "bad-op" })
+      let model := match hold, rest.head? with
+        | some d, some h => s!"ready a=1 b=0 held={h} {if d == 0 then "a=ready b=syncing" else "a=syncing b=ready"}"
+        | _, _ => "ready a=1 b=0"
+      ({ st with inE2E := true, e := e }, { model := model, nontrivial := true })
+    | _, _, _ => (st, { model := "bad-op" })
   | ["proxy"] => ({ st with inE2E := false, p := {} }, { model := "ok" })
   | _ =>
     if st.inE2E then
